@@ -155,6 +155,9 @@ def run_case(case, st=None):
             p.stat[f] = v
     elif k == "state":
         p.state = case[1]
+    elif k == "manythreads":
+        # scale: more threads than the caller may hold descriptors (RLIMIT_NOFILE 1024), each with counters of its own
+        p.threads = [Thread(p.pid + i, b"t%d" % i, "S", 3 + i, 5 + 2 * i) for i in range(case[1])]
     elif k == "state-long":
         p.state = case[1]
         p.comm = b"fifteen-bytes-nm"[:15]
@@ -319,6 +322,7 @@ def build_cases(thorough):
             continue
         for osv in ((False, False, False), (False, True, False), (True, True, True)):
             cases.append(("seq", [([], osv[0]), (chg[a], osv[1]), (chg[b], osv[2])]))
+    cases.append(("manythreads", 3000))
     for nm_ in (b"plain", b"caf\xc3\xa9", b"\xe6\x97\xa5\xe6\x9c\xac", b"\xff\xfe", b"a b)c"):
         for enc_ in ("ascii", "latin-1", "utf-8"):
             cases.append(("name-enc", nm_, enc_))
